@@ -1149,6 +1149,11 @@ func commitKey(db *leveldb.DB, batch *leveldb.Batch, key []byte, startTS, commit
 }
 
 func commitLock(batch *leveldb.Batch, lock mvccLock, key []byte, startTS, commitTS uint64) error {
+	if lock.op == kvrpcpb.Op_PessimisticLock {
+		// A pessimistic lock carries no data: committing it only releases the lock.
+		batch.Delete(mvccEncode(key, lockVer))
+		return nil
+	}
 	var valueType mvccValueType
 	switch lock.op {
 	case kvrpcpb.Op_Put:
